@@ -107,4 +107,11 @@ VARIANTS = [
     dict(id="c14-benign-validators-merged", property="C14", kind="benign", file=S,
          old="                raise ValueError(\"`FINAL_BOUNDS_SCALAR` must be > 0 if `ALPHA_FINAL` is not None\")\n\n        return self\n\n    \n    @pydantic.model_validator(mode=\"after\")\n    def _check_initial_step_percentage(self):\n",
          new="                raise ValueError(\"`FINAL_BOUNDS_SCALAR` must be > 0 if `ALPHA_FINAL` is not None\")\n\n"),
+    {'id': 'c14-keys-fast-path-islower', 'property': 'C14', 'kind': 'break', 'expect_rule': 'R14.3', 'expect_key': 'keys-normalised', 'file': 'opendsm/common/base_settings.py', 'old': '        return __lower__(values)', 'new': '        if isinstance(values, dict) and all((not isinstance(k, str)) or k.islower() for k in values):\n            return values\n        return __lower__(values)'},
+    {'id': 'c14-keys-strip-dropped', 'property': 'C14', 'kind': 'break', 'expect_rule': 'R14.3', 'expect_key': 'keys-normalised', 'file': 'opendsm/common/base_settings.py', 'old': 'return {k.lower().strip() if isinstance(k, str) else k: __lower__(v) for k, v in value.items()}', 'new': 'return {k.lower() if isinstance(k, str) else k: __lower__(v) for k, v in value.items()}'},
+    {'id': 'c14-keys-not-recursive', 'property': 'C14', 'kind': 'break', 'expect_rule': 'R14.3', 'expect_key': 'keys-normalised', 'file': 'opendsm/common/base_settings.py', 'old': 'return {k.lower().strip() if isinstance(k, str) else k: __lower__(v) for k, v in value.items()}', 'new': 'return {k.lower().strip() if isinstance(k, str) else k: v for k, v in value.items()}'},
+    {'id': 'c14-values-strip-dropped', 'property': 'C14', 'kind': 'break', 'expect_rule': 'R14.3', 'expect_key': 'values-normalised', 'file': 'opendsm/common/base_settings.py', 'old': '            return v.lower().strip()', 'new': '            return v.lower()'},
+    {'id': 'c14-benign-keys-loop', 'property': 'C14', 'kind': 'benign', 'file': 'opendsm/common/base_settings.py', 'old': '                return {k.lower().strip() if isinstance(k, str) else k: __lower__(v) for k, v in value.items()}', 'new': '                out = {}\n                for k, v in value.items():\n                    if isinstance(k, str):\n                        k = k.strip().lower()\n                    out[k] = __lower__(v)\n                return out'},
+    {'id': 'c14-checker-returns-at-nested', 'property': 'C14', 'kind': 'break', 'expect_rule': 'R14.2', 'expect_key': 'iterates-all-fields', 'file': 'opendsm/eemeter/models/daily/utilities/settings.py', 'old': '            _check_developer_mode(getattr(cls, k))\n', 'new': '            return _check_developer_mode(getattr(cls, k))\n'},
+    {'id': 'c14-benign-checker-class-fields', 'property': 'C14', 'kind': 'benign', 'file': 'opendsm/eemeter/models/daily/utilities/settings.py', 'old': '    for k, v in cls.model_fields.items():', 'new': '    for k, v in type(cls).model_fields.items():'},
 ]
